@@ -370,10 +370,11 @@ class RenderAnnotation(GenericTypeRewriter[str]):
 
     def rewrite(self, typ: type) -> str:
         rendered = super().rewrite(typ)
+        # whole names only: neither "mytyping.Foo" nor a class called "MyNoneTypeBox" is touched
         if getattr(typ, "__module__", None) == "typing":
-            rendered = rendered.replace("typing.", "")
+            rendered = re.sub(r"(?<![\w.])typing\.", "", rendered)
         # Temporary hacky workaround for #76 to fix remaining NoneType hints by search-replace
-        rendered = rendered.replace("NoneType", "None")
+        rendered = re.sub(r"(?<![\w.])NoneType\b", "None", rendered)
         return rendered
 
 
